@@ -1858,6 +1858,8 @@ def _default(it, key, raw, args):
     f = DEFAULT_HOOKS.get(h)
     if f:
         return f(it, x)
+    if h in ('IntoIter', 'Iter', 'Empty'):
+        return ListIter([])
     raise Unsupported('Default for %r' % x)
 
 
